@@ -176,7 +176,9 @@ def make_ns(env):
             env.tick()
             env.trace.append(("c", i, 0, "forced"))
             return False
-        a = env.choose(2, ("c", i))
+        # choice 0 (the default answer of a deviation-bounded exploration) is "true": the default execution enters
+        # every body, so that few deviations already reach interrupts nested several levels deep
+        a = 1 - env.choose(2, ("c", i))
         env.trace.append(("c", i, a))
         if a:
             wb[i] += 1
@@ -199,7 +201,7 @@ def make_ns(env):
             return s.k
 
     def it(i):
-        n = env.choose(3, ("it", i))
+        n = (1, 0, 2)[env.choose(3, ("it", i))]  # default answer: one iteration
         env.trace.append(("it", i, n))
         return It(i, n)
 
@@ -328,7 +330,7 @@ TIERS = {
         "method": (3, []),
         "loopfunc": (3, []),
         "loopclass": (3, []),
-        "funcloop": (4, []),
+        "funcloop": (4, [(5, 1)]),
         "whileelse": (4, []),
     },
     "thorough": {
@@ -354,7 +356,7 @@ def shards(tier):
                 out.append((frame, size, r, k, cfgs, None))
         for size, dev in extra:
             for r in range(4096):
-                out.append((frame, size, r, 4096, core.ALL_CFG, dev))
+                out.append((frame, size, r, 4096, core.ALL_CFG if tier == "thorough" else HALF_CFG, dev))
     return out
 
 
